@@ -85,18 +85,15 @@ Proof.
     + intros [_ E]. now subst.
   - apply mem_false_In in M. destruct (parent_of (vbks W) v) as [p|] eqn:Pa.
     + destruct (mem p K) eqn:Mp.
-      * split.
-        -- intros E. injection E as E0. subst K'. split; [|reflexivity]. right. exists p. split; [reflexivity | now apply mem_In].
-        -- intros [_ E]. now subst.
+      * destruct (hdr_ok W v) eqn:Hd.
+        -- split.
+           ++ intros E. injection E as E0. subst K'. split; [|reflexivity]. right. exists p.
+              split; [reflexivity | split; [now apply mem_In | reflexivity]].
+           ++ intros [_ E]. now subst.
+        -- split; [discriminate|]. intros [[H|[q [Eq [_ Hq]]]] _]; [contradiction | discriminate].
       * apply mem_false_In in Mp. split; [discriminate|].
-        intros [[H|[q [Eq Hq]]] _]; [contradiction|]. inversion Eq. subst. contradiction.
+        intros [[H|[q [Eq [Hq _]]]] _]; [contradiction|]. inversion Eq. subst. contradiction.
     + split; [discriminate|]. intros [[H|[q [Eq _]]] _]; [contradiction | discriminate].
-Qed.
-
-Lemma exec_vbk_err W K v e : exec_vbk W K v = inr e -> e = EVbkPrev.
-Proof.
-  unfold exec_vbk. destruct (mem v K); [discriminate|].
-  destruct (parent_of (vbks W) v); [destruct (mem z K)|]; congruence.
 Qed.
 
 Lemma exec_vbks_iff W vs : forall K K',
@@ -118,21 +115,23 @@ Proof.
   2:{ apply mem_false_In in M1. split; [discriminate | tauto]. }
   apply mem_In in M1.
   destruct (p_maxvtb P <=? count (w_containing w) (vin s)) eqn:M2.
-  { apply Z.leb_le in M2. split; [discriminate|]. intros [[_ [H _]] _]. lia. }
+  { apply Z.leb_le in M2. split; [discriminate|]. intros [(_ & H & _) _]. lia. }
   apply Z.leb_gt in M2.
   destruct (btc_ref_ok W (brefs s) (w_conn w) (w_containing w)) eqn:M3; cbn [negb].
-  2:{ split; [discriminate|]. intros [[_ [_ [H _]]] _]. apply btc_ref_ok_iff in H. congruence. }
+  2:{ split; [discriminate|]. intros [(_ & _ & H & _) _]. apply btc_ref_ok_iff in H. congruence. }
   apply btc_ref_ok_iff in M3.
   destruct (btc_chain W (w_conn w) (w_bctx w)) eqn:M4; cbn [negb].
-  2:{ split; [discriminate|]. intros [[_ [_ [_ [H _]]]] _]. congruence. }
+  2:{ split; [discriminate|]. intros [(_ & _ & _ & H & _) _]. congruence. }
+  destruct (forallb (bhdr_ok W) (w_bctx w)) eqn:M4b; cbn [negb].
+  2:{ split; [discriminate|]. intros [(_ & _ & _ & _ & H & _) _]. congruence. }
   destruct (mem (w_endorsed w) (vknown s)) eqn:M5; cbn [negb].
   2:{ apply mem_false_In in M5. split; [discriminate | tauto]. }
   apply mem_In in M5.
   destruct (anc_or_eq (vbks W) (w_endorsed w) (w_containing w)) eqn:M6; cbn [negb].
-  2:{ split; [discriminate|]. intros [[_ [_ [_ [_ [_ [H _]]]]]] _]. apply anc_or_eq_iff in H. congruence. }
+  2:{ split; [discriminate|]. intros [(_ & _ & _ & _ & _ & _ & H & _) _]. apply anc_or_eq_iff in H. congruence. }
   apply anc_or_eq_iff in M6.
   destruct (hdiff_le (vbks W) (w_containing w) (w_endorsed w) (p_vsettle P)) eqn:M7; cbn [negb].
-  2:{ split; [discriminate|]. intros [[_ [_ [_ [_ [_ [_ H]]]]]] _]. apply hdiff_le_iff in H. congruence. }
+  2:{ split; [discriminate|]. intros [(_ & _ & _ & _ & _ & _ & _ & H) _]. apply hdiff_le_iff in H. congruence. }
   apply hdiff_le_iff in M7.
   split.
   - intros E. inversion E. repeat split; auto.
@@ -384,7 +383,10 @@ Definition exW : World :=
   mkWorld [mkBlk 0 (-1) 0; mkBlk 1 0 1; mkBlk 2 1 2; mkBlk 3 2 3; mkBlk 4 3 4; mkBlk 5 1 2]
           [mkBlk 0 (-1) 0; mkBlk 1 0 1; mkBlk 2 1 2; mkBlk 3 1 2]
           [mkBlk 0 (-1) 0; mkBlk 1 0 1; mkBlk 2 1 2]
-          [].
+          []
+          [(0, 100); (1, 110); (2, 105); (3, 99)]
+          [(0, 50); (1, 60); (2, 70)]
+          1000.
 Definition exP : Params := default_params 2 10 2.
 Definition exT : Atv := honest_atv exW 2 1 3 1.                 (* endorses block 3, block of proof VBK 1 *)
 Definition exV : Vtb := mkVtb 1 1 2 0 [1; 2].
@@ -416,3 +418,10 @@ Proof. vm_compute. reflexivity. Qed.
 Example ex_dup : apply_chain exW exP st0
     [(1, mkBody [1] [] []); (2, mkBody [1] [] [])] = VRefused 2 EDup.
 Proof. vm_compute. reflexivity. Qed.
+
+(* VBK header 3 (timestamp 99) is below the minimum timestamp of a child of block 1 (lower median of {100, 110} = 100);
+   header 2 (105) is admissible although it is older than its parent *)
+Example ex_vbktime : apply_chain exW exP st0 [(1, mkBody [1; 3] [] [])] = VRefused 1 EVbkTime.
+Proof. vm_compute. reflexivity. Qed.
+Example ex_vbktime_ok : exists s, apply_chain exW exP st0 [(1, mkBody [1; 2] [] [])] = VOk s.
+Proof. eexists. vm_compute. reflexivity. Qed.
